@@ -210,7 +210,10 @@ pub fn special_sequences(set: u8) -> Vec<Vec<u8>> {
             &[0x9E],
         ]
     };
-    v.iter().map(|x| x.to_vec()).collect()
+    let mut all: Vec<Vec<u8>> = v.iter().map(|x| x.to_vec()).collect();
+    // byte runs spelled out in the tree's own source (build.rs): whatever recognises a particular run has to name it
+    all.extend(crate::layouts::magic_byte_sequences());
+    all
 }
 
 /// Keys the reference says this set can express, with their sequences.
